@@ -303,10 +303,14 @@ func (c *Client) flushBuf(ctx context.Context, b *proto.Buffer) error {
 
 func (c *Client) flush(ctx context.Context) error {
 	if err := ctx.Err(); err != nil {
+		// Staged data belongs to the failed request and must not be sent
+		// with the next one.
+		c.writer.Reset()
 		return errors.Wrap(err, "context")
 	}
 	if deadline, ok := ctx.Deadline(); ok {
 		if err := c.conn.SetWriteDeadline(deadline); err != nil {
+			c.writer.Reset()
 			return errors.Wrap(err, "set write deadline")
 		}
 		// Reset deadline.
